@@ -59,7 +59,10 @@ var errPipe = errors.New("write: broken pipe")
 
 func (c *Conn) Write(p []byte) (int, error) {
 	// seam crossing: the process may be killed right before the reply leaves
-	if c.inc != nil && !c.inc.sim.seam(c.inc, seamReply) {
+	c.mu.Lock()
+	inc := c.inc
+	c.mu.Unlock()
+	if inc != nil && !inc.sim.seam(inc, seamReply) {
 		return 0, errPipe
 	}
 	c.mu.Lock()
